@@ -526,4 +526,81 @@ def sumAsync (sqrt : Option (α → α)) (l : List α) : α :=
 patches is counted `k` times (this is NOT the global norm, see `C13.unweightedNormSqr_eq`) -/
 def unweightedNormSqr (xs : List (List α)) : α := allSum (xs.map fun x => dotLocal x x)
 
+
+/-! ### Floating point level of the type-0 synchronisation
+
+`fl` is the rounding of one floating point addition.  `scatter_axpy` with `alpha = 1` (the only value used by
+`SynchVectorTicket`) performs `vec[idx[i]] = fl(vec[idx[i]] + buf[i])` (`1*b` is exact).  With `fl = id` these are
+`scatterAxpy … 1` / `sync0Patch` (`C13.sync0PatchFl_id`). -/
+
+def scatterAddFl (fl : α → α) (v : List α) (mir : List Nat) (buf : List α) : List α :=
+  (mir.zip buf).foldl (fun w p => w.modify p.1 (fun x => fl (x + p.2))) v
+
+def sync0PatchFl (fl : α → α) (ps : List Patch) (vs : List (List α)) (r : Nat) (ord : List Nat) : List α :=
+  ord.foldl (fun tgt k =>
+      let nb := (ps.getD r default).nbrs.getD k (0, [])
+      scatterAddFl fl tgt nb.2 ((sendBuf ps vs nb.1 r).getD []))
+    (vs.getD r [])
+
+/-- the floating point sum of the own value `c0` and the received contributions `cs` in arrival order -/
+def flSum (fl : α → α) (c0 : α) (cs : List α) : α := cs.foldl (fun acc c => fl (acc + c)) c0
+
+/-! ### Discretise-and-solve: distributed Richardson / Jacobi-Richardson / CG on top of the distributed
+matrix-vector product and the global dot product (what `Solver::Richardson`, `JacobiPrecond`, `PCG` do with
+`Global::Matrix` / `Global::Vector` arguments) -/
+
+section Solve
+variable [Neg α]
+
+/-- defect `d = b - A x` by `matrix.apply(d, x, b, -1)` (type-1 result) -/
+def gdefect (ps : List Patch) (ords : List (List Nat)) (mats : List (List (List (Nat × α))))
+    (bs xs : List (List α)) : List (List α) :=
+  gapply2 ps ords mats xs bs (-1)
+
+/-- the synchronised inverse diagonal of `JacobiPrecond`: `extract_diag` (with sync), then `component_invert` -/
+def ginvDiag (ps : List Patch) (ords : List (List Nat)) (mats : List (List (List (Nat × α)))) : List (List α) :=
+  (gdiag ps ords mats).map fun dg => dg.map fun a => 1 / a
+
+/-- one (Jacobi-)Richardson step: `x += omega * (D⁻¹) (b - A x)`; `jac = false`: no preconditioner -/
+def richStep (jac : Bool) (omega : α) (ps : List Patch) (ords : List (List Nat))
+    (mats : List (List (List (Nat × α)))) (bs xs : List (List α)) : List (List α) :=
+  let ds := gdefect ps ords mats bs xs
+  let cs := if jac then List.zipWith compMul ds (ginvDiag ps ords mats) else ds
+  List.zipWith (fun x c => vAxpy x c omega) xs cs
+
+def richIter (jac : Bool) (omega : α) (ps : List Patch) (ords : List (List Nat))
+    (mats : List (List (List (Nat × α)))) (bs : List (List α)) : Nat → List (List α) → List (List α)
+  | 0, xs => xs
+  | k + 1, xs => richIter jac omega ps ords mats bs k (richStep jac omega ps ords mats bs xs)
+
+/-- state of the conjugate gradient iteration: solution, residual, direction, `r·r` -/
+structure CGState (α : Type) where
+  x : List (List α)
+  r : List (List α)
+  p : List (List α)
+  rr : α
+
+def cgInit (ps : List Patch) (ords : List (List Nat)) (mats : List (List (List (Nat × α))))
+    (bs xs : List (List α)) : CGState α :=
+  let r := gdefect ps ords mats bs xs
+  { x := xs, r := r, p := r, rr := gdot ps r r }
+
+/-- one CG step: `q = A p; a = rr / p·q; x += a p; r -= a q; rr' = r·r; p = r + (rr'/rr) p` -/
+def cgStep (ps : List Patch) (ords : List (List Nat)) (mats : List (List (List (Nat × α))))
+    (st : CGState α) : CGState α :=
+  let q := gapply ps ords mats st.p
+  let a := st.rr / gdot ps st.p q
+  let x := List.zipWith (fun x p => vAxpy x p a) st.x st.p
+  let r := List.zipWith (fun r q => vAxpy r q (-a)) st.r q
+  let rr := gdot ps r r
+  let p := List.zipWith (fun r p => vAxpy r p (rr / st.rr)) r st.p
+  { x := x, r := r, p := p, rr := rr }
+
+def cgIter (ps : List Patch) (ords : List (List Nat)) (mats : List (List (List (Nat × α)))) :
+    Nat → CGState α → CGState α
+  | 0, st => st
+  | k + 1, st => cgIter ps ords mats k (cgStep ps ords mats st)
+
+end Solve
+
 end FeatModel.Dist
